@@ -1,5 +1,5 @@
 (* C19 — lemmas and proofs about Boot/Listen.v *)
-From PM Require Import Lib.Bytes Lib.BytesFacts Lib.PyStr Boot.Listen.
+From PM Require Import Lib.Bytes Lib.BytesFacts Lib.PyStr Lib.PyStrFacts Lib.PyStrFacts2 Boot.Listen.
 
 (* ------------------------------------------------------------------ generic *)
 Lemma addr_eqb_eq a b : addr_eqb a b = true <-> a = b.
@@ -644,3 +644,37 @@ Proof.
   - intros l. split; [apply NoDup_nodup|intros x; apply nodup_In].
   - intros l. split; [apply NoDup_nodup|intros x; apply nodup_In].
 Qed.
+
+(* ------------------------------------------------------------------ the port file can be read back *)
+(* a reader of the port file: lines terminated by LF, each a decimal integer (what a client of
+   --port-file does with int(line)); specification-side, not part of the proxy *)
+Fixpoint read_port_lines (acc : N) (l : bytes) : list N :=
+  match l with
+  | [] => []
+  | x :: t => if x =? LF then acc :: read_port_lines 0 t else read_port_lines (acc * 10 + (x - 48)) t
+  end.
+Definition read_port_file (content : bytes) : list N := read_port_lines 0 content.
+
+Lemma read_port_lines_line d : forall acc rest, all_digits d = true ->
+  read_port_lines acc (d ++ LF :: rest) = digits_val_aux d acc :: read_port_lines 0 rest.
+Proof.
+  induction d as [|x t IH]; intros acc rest Hd.
+  - cbn [app read_port_lines digits_val_aux]. now rewrite N.eqb_refl.
+  - cbn [all_digits forallb] in Hd. apply andb_true_iff in Hd as [Hx Ht].
+    cbn [app read_port_lines digits_val_aux].
+    assert (E : (x =? LF) = false).
+    { apply N.eqb_neq. unfold is_digit in Hx. apply andb_true_iff in Hx as [Hlo _].
+      apply N.leb_le in Hlo. unfold LF. lia. }
+    rewrite E. now apply IH.
+Qed.
+
+Lemma read_port_file_lines l : read_port_file (port_lines l) = l.
+Proof.
+  unfold read_port_file. induction l as [|q l IH]; [reflexivity|].
+  rewrite port_lines_cons, <- app_assoc. cbn [app].
+  destruct (dec_of_N_spec q) as (_ & Hd & Hv).
+  rewrite read_port_lines_line by exact Hd. rewrite IH. f_equal. exact Hv.
+Qed.
+
+Lemma port_lines_inj a b : port_lines a = port_lines b -> a = b.
+Proof. intros H. rewrite <- (read_port_file_lines a), <- (read_port_file_lines b). now rewrite H. Qed.
